@@ -37,6 +37,9 @@ def _verify_one(args):
         mod.build(reg)
         reg.units = [c for c in reg.units if pid in c.props]
         contract = reg.units[idx]
+        from . import values as _values
+        import itertools as _it
+        _values._counter = _it.count(100000)
         res, ex = verify.verify_unit(reg, contract, tier)
         out = {"unit": res.name, "addr": res.addr, "status": res.status, "message": res.message, "notes": res.notes,
                "obligations": [], "covers": [], "exec_time": res.time, "digest": res.source_digest,
@@ -84,12 +87,14 @@ def run_units(pid, tier, timeout_ms, overrides=None, only=None, jobs=None):
     reg.units = [c for c in reg.units if pid in c.props]
     idxs = [i for i, c in enumerate(reg.units) if only is None or any(o in c.name for o in only)]
     jobs = jobs or min(16, max(1, len(idxs)))
-    width = max(1, 16 // max(1, min(jobs, len(idxs))))     # obligations solved concurrently inside one unit
+    width = max(4, 16 // max(1, min(jobs, len(idxs))))     # obligations solved concurrently inside one unit
     args = [(pid, i, tier, timeout_ms, overrides, width) for i in idxs]
     if jobs == 1 or len(args) <= 1:
         return [_verify_one(a) for a in args], reg, mod
     ctx = mp.get_context("fork")
-    with ctx.Pool(jobs) as pool:
+    # a fresh worker per unit (forked from this parent): the z3 context and the fresh-name counter of a unit do not
+    # depend on which units the worker handled before, so verdicts and timings are reproducible run to run
+    with ctx.Pool(jobs, maxtasksperchild=1) as pool:
         res = pool.map(_verify_one, args, chunksize=1)
     return res, reg, mod
 
